@@ -49,7 +49,7 @@ DTS = (1e-3, 0.05, 1.0)
 SIGNS = (-1, 1)
 NF_KINDS = ("min", "min+7", "257")
 EXTRA = (0, 2)
-FAMS = (0, 1)
+FAMS = (0, 1, 2)
 NXSEG = 1024        # only used by the 'cor' branch, which is not exercised
 
 
@@ -62,7 +62,7 @@ def nf_of(kind, n):
 def coefficients(seed, n, Nch, Nref, sgn, fam):
     """Real alpha_0..alpha_n (Nch x Nch), beta_0..beta_n (Nref x Nch) under the library's constraint."""
     tag = f"c05/{n}/{Nch}/{Nref}/{sgn}/{fam}"
-    a_amp, b_amp = ((0.5, 1.0), (0.3, 1e-2))[fam]
+    a_amp, b_amp = ((0.5, 1.0), (0.3, 1e-2), (0.5, 1e-8))[fam]      # family 2: a spectrum of very small level
     alpha = a_amp * payload.normal(seed, tag + "/a", (n + 1, Nch, Nch))
     if sgn == -1:           # 'LO': alpha_0 = I
         alpha[0] = np.eye(Nch)
